@@ -73,11 +73,15 @@ inductive TrnErr where
   | emptyAlt   -- IOError('Empty alternate found ("{ }")')
   deriving Repr, DecidableEq
 
-/-- What `str.strip()` removes (restricted to the code points the harness generates:
-ASCII white space and the C0 separators; other Unicode white space is not generated). -/
+/-- What `str.strip()` / `str.split()` treat as white space: exactly the code points with
+`str.isspace()` (U+0009–000D, U+001C–001F, U+0020, U+0085, U+00A0, U+1680, U+2000–200A, U+2028,
+U+2029, U+202F, U+205F, U+3000). -/
 def isPyWhite (c : Char) : Bool :=
   c == ' ' || c == '\t' || c == '\n' || c == '\r' || c == '\x0b' || c == '\x0c' ||
-  c == '\x1c' || c == '\x1d' || c == '\x1e' || c == '\x1f' || c == '\u0085' || c == '\u00a0'
+  c == '\x1c' || c == '\x1d' || c == '\x1e' || c == '\x1f' || c == '\u0085' || c == '\u00a0' ||
+  c == '\u1680' || c == '\u2000' || c == '\u2001' || c == '\u2002' || c == '\u2003' || c == '\u2004' ||
+  c == '\u2005' || c == '\u2006' || c == '\u2007' || c == '\u2008' || c == '\u2009' || c == '\u200a' ||
+  c == '\u2028' || c == '\u2029' || c == '\u202f' || c == '\u205f' || c == '\u3000'
 
 def strip (l : List Char) : List Char :=
   ((l.dropWhile isPyWhite).reverse.dropWhile isPyWhite).reverse
